@@ -245,6 +245,23 @@ Theorem C09_pinned_vector_rules_refuted :
 Proof. exact pinned_vector_rules_refuted. Qed.
 Print Assumptions C09_pinned_vector_rules_refuted.
 
+(* a keyword looked up with parse_required (KReq) that is absent makes the configuration refused:
+   "a missing required value is rejected" for the keywords the client marks as required *)
+Theorem C09_required_keyword_present : forall strict schema conf vs key k,
+  In (key, KReq k) schema -> parse_flat strict schema conf = PAccept vs ->
+  ksv_found (key_string_values conf key) = true.
+Proof. exact required_keyword_present. Qed.
+Print Assumptions C09_required_keyword_present.
+
+(* 3-vectors "( x , y , z )", quaternions and vector values: accepted iff the text is one parenthesised tuple of n
+   numbers (read by extract_tuple: '(' number {',' number} ')' with optional white space) and nothing but white
+   space follows; the numbers themselves are literals by C09_scalar_value_strict's scanner *)
+Theorem C09_tuple_value_strict : forall n data v,
+  scalar_value (extract_tuple n) data = SAccept v <->
+  exists rest, skip_space data <> [] /\ extract_tuple n (skip_space data) = ExtOk v rest /\ all_space rest.
+Proof. exact tuple_value_strict. Qed.
+Print Assumptions C09_tuple_value_strict.
+
 (* ---------------------------------------------------------------- examples: the premises are satisfiable *)
 
 Definition str_width := [119; 105; 100; 116; 104].                 (* "width" *)
